@@ -94,7 +94,7 @@ func (ps *PoolSet) gname() string {
 
 // PoolGet replaces P.Get().
 func PoolGet(p *sync.Pool, site string) any {
-	r := cur.Load()
+	r := current()
 	if r == nil {
 		return p.Get()
 	}
@@ -155,7 +155,7 @@ func poolGetLocked(ps *PoolSet, p *sync.Pool, site string) any {
 // PoolPut replaces P.Put(x).
 //go:norace
 func PoolPut(p *sync.Pool, x any, site string) {
-	r := cur.Load()
+	r := current()
 	if r == nil {
 		p.Put(x)
 		return
@@ -201,7 +201,7 @@ func PoolPut(p *sync.Pool, x any, site string) {
 // Own registers that harness code (a handler) is using x until Disown.
 //go:norace
 func Own(x any, who string) {
-	r := cur.Load()
+	r := current()
 	if r == nil {
 		return
 	}
@@ -222,7 +222,7 @@ func Own(x any, who string) {
 // Disown ends the ownership registered by Own.
 //go:norace
 func Disown(x any) {
-	r := cur.Load()
+	r := current()
 	if r == nil {
 		return
 	}
